@@ -249,7 +249,7 @@ func genC14(rng *rand.Rand, i int) c14Case {
 	case 0:
 		c.Timestamp = 0
 	case 1:
-		c.Timestamp, c.ValidityWindow = 0, -(1 << 40) // negative expiry: 10-byte varint
+		c.Timestamp, c.ValidityWindow = 0, -(1 << 40) // negative expiry (zigzag varint)
 	case 2:
 		c.Timestamp = int64(rng.Uint64() >> 2)
 	default:
@@ -315,7 +315,7 @@ func genC14(rng *rand.Rand, i int) c14Case {
 
 func TestC14(t *testing.T) {
 	r := kit.Start(t, "C14", "exploration")
-	r.Rule("case = rules (random chain id incl. all-zero, storage costs, max actions 1..255, expiry incl. zero/negative/huge) x 1..max actions (morpheusvm Transfer with memos 0..256 bytes and programmable actions of 0..2000 (occasionally 16384+) encoded bytes so that 1-, 2- and 3-byte length prefixes occur, declared key sets with duplicates) x auth factory (ed25519, secp256r1, BLS, configurable-size spy auth) x unit prices; chain.GenerateTransaction signs the transaction; judged: EstimateUnits[d] >= Transaction.Units[d] of the signed transaction for all 5 dimensions and MaxFee >= sum price*units in math/big. Non-trivial = >= 2 actions or an action of >= 128 bytes; distinct = (action count, histogram of length-prefix sizes, auth kind/prefix size, zero chain id, expiry varint size, zero fee).")
+	r.Rule("case = rules (random chain id incl. all-zero, storage costs, max actions 1..255, expiry incl. zero / negative / 2^62 (1..10-byte varints)) x 1..max actions (morpheusvm Transfer with memos 0..256 bytes and programmable actions of 0..2000 (occasionally 16384+) encoded bytes so that 1-, 2- and 3-byte length prefixes occur, declared key sets with duplicates) x auth factory (ed25519, secp256r1, BLS, configurable-size spy auth) x unit prices; chain.GenerateTransaction signs the transaction; judged: EstimateUnits[d] >= Transaction.Units[d] of the signed transaction for all 5 dimensions and MaxFee >= sum price*units in math/big. Non-trivial = >= 2 actions or an action of >= 128 bytes; distinct = (action count, histogram of length-prefix sizes, auth kind/prefix size, zero chain id, expiry varint size, zero fee).")
 	r.Assume(
 		"rules.SponsorStateKeysMaxChunks describes the balance handler's sponsor keys (default {1} = one balance key of one chunk, true for the prefix and the morpheusvm balance handlers used here)",
 		"AuthFactory.MaxUnits is the factory's own promise about the auth it produces (true for the built-in factories)",
